@@ -51,6 +51,12 @@ PushesUpTo(k)  == SetToSortSeq({i \in 1..k : IsKind(i, "lpush")}, LAMBDA a, b : 
 RECURSIVE SumSizes(_)
 SumSizes(S) == IF S = {} THEN 0 ELSE LET i == CHOOSE x \in S : TRUE IN Src.sizes[i] + SumSizes(S \ {i})
 StrLenUpTo(k)  == SumSizes({i \in 1..k : IsKind(i, "append")})
+\* SET entries (batchable writes): a key holds the value of the last SET up to k (0: none);
+\* "fail" entries (a write that is refused when it is applied) have no effect at all
+MaxIn(S)       == CHOOSE x \in S : \A y \in S : y <= x
+KvUpTo(k, key) == LET S == {i \in 1..k : IsKind(i, "set") /\ Src.keys[i] = key}
+                  IN IF S = {} THEN 0 ELSE MaxIn(S)
+KvAll(k)       == <<KvUpTo(k, 1), KvUpTo(k, 2), KvUpTo(k, 3)>>
 
 Fresh ==
   /\ rlog' = <<>> /\ applied' = 0 /\ effects' = <<>> /\ synced' = 0 /\ pc' = "idle"
@@ -95,6 +101,7 @@ TObs ==
   ELSE IF E.lst # PushesUpTo(E.si) THEN Mismatch("list-not-once-per-entry", Len(PushesUpTo(E.si)))
   ELSE IF E.strids # AppendsUpTo(E.si) \/ E.strlen # StrLenUpTo(E.si)
        THEN Mismatch("string-not-once-per-entry", <<Len(AppendsUpTo(E.si)), StrLenUpTo(E.si)>>)
+  ELSE IF <<E.kv[1], E.kv[2], E.kv[3]>> # KvAll(E.si) THEN Mismatch("kv-not-the-last-set", KvAll(E.si))
   ELSE /\ synced'  = E.si
        /\ effects' = Upto(E.si)
        /\ seen'    = E.si
